@@ -338,7 +338,7 @@ func init() {
 			Spec{Kind: "i64", Lazy: true,
 				InitCond:   map[string]string{"_, ok := err.(NonFatalErrors) ; ok": "isNfe", "errs, ok := err.(*Errors) ; ok": "isErrors"},
 				TypeSwitch: map[string]map[string]string{"err": {"nil": "isNil", "NonFatalErrors": "isNfe", "*Errors": "isErrors"}},
-				Repl:     map[string]string{"err == nil": "isNil", "errs.Fatal()": "errsFatal"}})},
+				Repl:       map[string]string{"err == nil": "isNil", "errs.Fatal()": "errsFatal"}})},
 		wrapper("ParseCertificate", "parseCertificateBody"),
 		wrapper("ParseTBSCertificate", "parseTBSCertificateBody"),
 		// ParseCertificates: one iteration of each of its two loops (9 in the error position = go on with the next element)
